@@ -76,7 +76,7 @@ HookEvent(signer, m, fault) ==
   CASE m.kind = "send"     -> [type |-> "BankSend", signer |-> signer, to |-> m.to, denom |-> m.denom, amt |-> m.amt]
     [] m.kind = "withdraw" -> [type |-> "InitiateTokenWithdrawal", signer |-> signer, to |-> m.to, denom |-> m.denom, amt |-> m.amt]
     [] m.kind = "deposit"  -> [type |-> "FinalizeTokenDeposit", signer |-> signer, seq |-> m.seq, from |-> m.from, to |-> m.to, denom |-> m.denom, amt |-> m.amt,
-                               base |-> m.base, height |-> m.height, hook |-> NoHookRec, fault |-> fault]   \* an injected bank fault is global to the transaction
+                               base |-> m.base, height |-> m.height, hook |-> (IF "hook" \in DOMAIN m THEN m.hook ELSE NoHookRec), fault |-> fault]   \* an injected bank fault is global to the transaction
 WdOnly(w) == [seq |-> w.seq, from |-> w.from, to |-> w.to, denom |-> w.denom, base |-> w.base, amt |-> w.amt]
 (* withdrawals / deposit events a successful step announces, in emission order *)
 WdsOf(ev, r) ==
